@@ -76,13 +76,15 @@ class Ctx:
         return self.prog.family(f)
 
     def loc(self, f, bb=None, line=None):
+        file = f.file
         if line is None and bb is not None:
             t = f.blocks[bb]['t']
             if t[0] == 'call':
                 line = t[6]
             elif f.blocks[bb]['s']:
                 line = f.blocks[bb]['s'][-1][3]
-        return '%s:%s' % (f.file, line if line is not None else f.line)
+            file = f.blocks[bb].get('file', file)      # a block spliced in from an inlined helper keeps its own file
+        return '%s:%s' % (file, line if line is not None else f.line)
 
     # ------------------------------------------------------------------ K4 writers
     def writers(self, rule, adt, field, allowed, required=None, crate=None, kinds=('assign', 'mutref', 'calldst'), constructors=None):
@@ -131,7 +133,7 @@ class Ctx:
     def callers(self, rule, name, pred, allowed, required=None, crates=None):
         """functions containing a call site satisfying pred(Call) must be within `allowed` (id suffixes)"""
         sites = []
-        for f in self.prog.fns.values():
+        for f in self.prog.bodies():
             if f.kind in ('promoted', 'const'):
                 continue
             if crates and f.crate not in crates:
@@ -191,7 +193,7 @@ class Ctx:
         ps = [a for a in atoms if a[0] == 'P']
         if not ps or depth == 0:
             return out | set(ps)
-        sites = [c for g in self.prog.fns.values() if g.kind not in ('promoted', 'const') for c in g.calls if c.callee == f.id]
+        sites = [c for g in self.prog.bodies() if g.kind not in ('promoted', 'const') for c in g.calls if c.callee == f.id]
         if not sites:
             return out | set(ps)
         for a in ps:
